@@ -42,6 +42,10 @@ pub fn dispatch(op: &str, req: &Value) -> Result<Value, String> {
         return crate::ops_stateres::auth_diff(req);
     }
     #[cfg(feature = "stateres")]
+    if op == "c07:mainline" {
+        return crate::ops_stateres::mainline(req);
+    }
+    #[cfg(feature = "stateres")]
     if op == "c07:toposort" {
         return crate::ops_stateres::toposort(req);
     }
